@@ -153,8 +153,19 @@ def prepare(side: str, prep: t.Sequence[t.Any]) -> t.Tuple[t.Any, t.List[int]]:
     (ids 1..n).  -> (session, ids of the operations now in progress)"""
     s = new(side)
     ids: t.List[int] = []
+    LDAPError, _PE = errors()
     for i, op in enumerate(prep):
         op = tuple(op)
+        if op[0] == "try":
+            # a call that the session may refuse (e.g. a search while binding); refusals are part of the prior history
+            try:
+                if side == "client":
+                    client_request(s, tuple(op[1]))
+                else:
+                    s.search_result_done(10**6 + i)
+            except LDAPError:
+                pass
+            continue
         if side == "client":
             ids.append(client_request(s, op))
         else:
